@@ -1,8 +1,54 @@
+(* C06/Properties.v — property C06: the database-backed trie engine agrees with the spec.
+   Tier B (DESIGN.md §5 C06): the model (Model.v) is the observational specification of
+   pkg/trie/triedb — Hash() is the spec root (Trie/Spec.v: canonical trie by longest common prefix,
+   spec node encoding) of the byte-keyed map the history denotes, a reopened instance returns that
+   map's values — and the engine is tied to it on every run by the correspondence check.
+   The theorems below state what that specification is, independently of the order of operations. *)
 From Common Require Import Bytes Blake2b.
 From Trie Require Import Nibbles Node Encode Spec.
-From C06 Require Import Model Proofs.
+From C06 Require Import Model MapSem Proofs Gen.
 
+(* Hash() after any history is the spec root of the last-write-wins map of that history. *)
+Theorem C06_root_spec :
+  forall (H : list byte -> list byte) (ver : version) (ops : list op),
+  engine_root H ver ops = spec_root_bytes H ver (map_of ops)
+  /\ forall k, bm_get (map_of ops) k = last_write ops k.
+Proof. intros. split; [apply root_spec | apply map_of_last_write]. Qed.
+Print Assumptions C06_root_spec.
+
+(* Two histories that leave the same key/value map (whatever their order, overwrites, deletions
+   and commits) have the same root. *)
+Theorem C06_root_order_independent :
+  forall (H : list byte -> list byte) (ver : version) (ops1 ops2 : list op),
+  (forall k, last_write ops1 k = last_write ops2 k) -> engine_root H ver ops1 = engine_root H ver ops2.
+Proof. exact root_order_independent. Qed.
+Print Assumptions C06_root_order_independent.
+
+(* A fresh instance opened at the committed root returns the last value written to each key and
+   nothing for every other key. *)
+Theorem C06_reopen_spec :
+  forall (ops : list op) (k : list byte), reopen_get ops k = last_write ops k.
+Proof. exact reopen_last_write. Qed.
+Print Assumptions C06_reopen_spec.
+
+(* A value is stored by hash exactly under V1 and when it is longer than the regenerated
+   constant trie.V1MaxInlineValueSize (32). *)
+Theorem C06_threshold :
+  forall ver v, value_hashed ver v = true <-> ver = V1 /\ (Z.to_nat Gen.v1_max_inline_value_size < length v)%nat.
+Proof. exact threshold. Qed.
+Print Assumptions C06_threshold.
+
+(* The pinned engine hashed values of exactly 32 bytes as well: a different root. *)
 Theorem C06_threshold_pinned_refuted :
   engine_root_pinned blake2b_256 V1 [OPut k1234 v32] <> engine_root blake2b_256 V1 [OPut k1234 v32].
 Proof. exact threshold_pinned_refuted. Qed.
 Print Assumptions C06_threshold_pinned_refuted.
+
+(* non-vacuity: a history with an overwrite, a deletion and two commits *)
+Example C06_nonvacuous :
+  let ops := [OPut k1234 v32; OHash; OPut [n2b 18] [n2b 1]; ODel k1234; OPut k1234 [n2b 7]; OHash] in
+  last_write ops k1234 = Some [n2b 7] /\ last_write ops [n2b 18] = Some [n2b 1]
+  /\ last_write ops [n2b 19] = None
+  /\ length (roots blake2b_256 V1 ops) = 2%nat
+  /\ nth 0 (roots blake2b_256 V1 ops) [] <> nth 1 (roots blake2b_256 V1 ops) [].
+Proof. vm_compute. repeat split; try reflexivity. intro E; discriminate E. Qed.
